@@ -3,7 +3,7 @@
 (* not only the reacting ones) in every state class: version known/unknown,   *)
 (* stored value present/absent, reboot flag, metric/imperial, sleeping asker. *)
 EXTENDS MySensors
-Reg == (1 :> NodeC("2.0", FALSE, (0 :> ChildV(6, Vals1(0, "a"))) @@ (1 :> ChildV(6, EmptyFn))))
+Reg == (1 :> NodeC("2.0", FALSE, (0 :> ChildV(6, Vals1(0, "a"))) @@ (1 :> ChildV(6, Vals1(0, "")))))
        @@ (2 :> NodeC("2.0", TRUE, (0 :> ChildV(6, Vals1(0, "b")))))
 AllInternal == [t \in 1..34 |-> Recv_(IF t - 1 \in {2, 14, 9} THEN 0 ELSE 1, 255, 3, t - 1, P1)]
 Alpha == AllInternal \o <<
@@ -16,6 +16,7 @@ Alpha == AllInternal \o <<
   Recv_(0, 255, 0, 18, P22), Recv_(0, 255, 0, 18, Pgarbage), Recv_(0, 255, 3, 2, P20), Recv_(0, 255, 3, 2, Pgarbage),
   Recv_(1, 255, 0, 17, P20), Recv_(1, 1, 0, 6, Pa),
   Recv_(1, 255, 4, 0, PEmpty), Recv_(3, 255, 4, 0, PEmpty), Recv_(1, 255, 4, 9, PEmpty),
+  Recv_(255, 7, 3, 4, P1), Recv_(1, 0, 3, 3, PEmpty),      \* id response / request carrying another child id
   Bad_("short")
 >>
 Inits == << St(Reg, NoVer, "1.4", TRUE), St(Reg, "1.4", "1.4", FALSE), St(Reg, "1.5", "1.5", TRUE),
